@@ -96,3 +96,96 @@ class SimStoreB(SimStore):
 
 
 STORE_CLASSES = {"A": SimStore, "B": SimStoreB}
+
+
+class FileDisk(Disk):
+    """Durable state where stores flagged 'file' live in real files written by
+    uberjob's own PickleFileStore (through the syscall fault layer), with
+    modified times on the virtual clock.  Everything else stays in memory."""
+
+    def __init__(self, scratch, file_names):
+        super().__init__()
+        self.scratch = scratch
+        self.file_names = set(file_names)
+
+    def path(self, name):
+        import os
+
+        return os.path.join(self.scratch, name + ".pkl")
+
+    def tick(self, t):
+        t = max(t, self.last + 1.0)
+        self.last = t
+        return t
+
+    def put(self, name, value, t):
+        if name not in self.file_names:
+            return super().put(name, value, t)
+        if self.frozen:
+            return
+        from uberjob.stores import PickleFileStore
+
+        self._now = t
+        PickleFileStore(self.path(name)).write(value)   # real staged write; mtime stamped at close by the fs layer
+        self.writes += 1
+        return self.mtime(name)
+
+    def delete(self, name):
+        import os
+
+        if name in self.file_names:
+            try:
+                os.remove(self.path(name))
+            except FileNotFoundError:
+                pass
+        else:
+            super().delete(name)
+
+    def value(self, name):
+        if name not in self.file_names:
+            return super().value(name)
+        from uberjob.stores import PickleFileStore
+
+        return PickleFileStore(self.path(name)).read()
+
+    def mtime(self, name):
+        import os
+
+        if name not in self.file_names:
+            return super().mtime(name)
+        try:
+            return os.stat(self.path(name)).st_mtime_ns / 1e9
+        except FileNotFoundError:
+            return None
+
+    def mtimes(self):
+        out = super().mtimes()
+        for n in self.file_names:
+            t = self.mtime(n)
+            if t is not None:
+                out[n] = t
+        return out
+
+    def snapshot(self):
+        import os
+
+        files = {}
+        for fn in os.listdir(self.scratch):
+            p = os.path.join(self.scratch, fn)
+            with open(p, "rb") as f:
+                files[fn] = (f.read(), os.stat(p).st_mtime_ns)
+        return (dict(self.data), self.last, self.now, files)
+
+    def restore(self, snap):
+        import os
+
+        self.data = dict(snap[0])
+        self.last = snap[1]
+        self.now = snap[2]
+        for fn in os.listdir(self.scratch):
+            os.remove(os.path.join(self.scratch, fn))
+        for fn, (b, ns) in snap[3].items():
+            p = os.path.join(self.scratch, fn)
+            with open(p, "wb") as f:
+                f.write(b)
+            os.utime(p, ns=(ns, ns))
